@@ -3,8 +3,10 @@ package main
 import (
 	"flag"
 	"fmt"
+	"os"
 	"regexp/syntax"
 	"strings"
+	"time"
 
 	"github.com/coregx/coregex"
 	"github.com/coregx/coregex/meta"
@@ -32,8 +34,18 @@ func cmdC11(args []string) int {
 	}
 	distinct := distinctSet{}
 	nontriv := 0
-	for i := 0; i < npat; i++ {
-		pat, src := pg.next(i)
+	slowDbg, slowT, slowWhat := os.Getenv("VERIF_SLOW") != "", time.Now(), ""
+	// patterns with LARGE automata on the backtracker strategies: with them an input of ~150 KB already exceeds the
+	// visited-table capacity, so the large-input fallbacks of every dispatcher run (bidirectional DFA, windowed
+	// backtracker, PikeVM) - each gets one huge haystack of short adjacent words
+	c11Huge := []string{`(\pL\pL?)`, `(\pL{2})(\pL{2})?`}
+	for i := 0; i < npat+len(c11Huge); i++ {
+		var pat, src string
+		if i < npat {
+			pat, src = pg.next(i)
+		} else {
+			pat, src = c11Huge[i-npat], "huge"
+		}
 		ast, err := syntax.Parse(pat, syntax.Perl)
 		if err != nil {
 			continue
@@ -50,9 +62,21 @@ func cmdC11(args []string) int {
 		st.hist("src:" + src)
 		st.hist("strategy:" + strat)
 		hg := newHayGen(r.fork(uint64(i)+6000), ast)
-		for j := 0; j < nhay; j++ {
-			h := hg.next(j)
-			if j%8 == 7 { // oracle-free: much larger haystacks are affordable
+		var long [][]byte
+		if i%2 == 0 || src == "huge" { // every other pattern: keeps the quick tier near two minutes
+			long = hg.longHays()
+		}
+		if src == "huge" {
+			long = append(long, hg.hugeHays(120000)...)
+		}
+		for j := 0; j < nhay+len(long); j++ {
+			var h []byte
+			if j < nhay {
+				h = hg.next(j)
+			} else {
+				h = long[j-nhay]
+			}
+			if j < nhay && j%8 == 7 { // oracle-free: much larger haystacks are affordable
 				var parts [][]byte
 				for len(concatBytes(parts...)) < 3000 {
 					parts = append(parts, hg.next(r.intn(12)))
@@ -64,6 +88,12 @@ func cmdC11(args []string) int {
 				continue
 			}
 			distinct.add(key)
+			if slowDbg {
+				if d := time.Since(slowT); d > 300*time.Millisecond {
+					fmt.Fprintf(os.Stderr, "slow %v %s\n", d, slowWhat)
+				}
+				slowT, slowWhat = time.Now(), fmt.Sprintf("%q len=%d strat=%s", pat, len(h), strat)
+			}
 			s := string(h)
 			rel := func(name, a, b string) {
 				st.Evaluations++
